@@ -9,6 +9,7 @@ import A2lVerif.Driver.Cleanup
 import A2lVerif.Driver.Include
 import A2lVerif.Driver.Merge
 import A2lVerif.Driver.A2ml
+import A2lVerif.Driver.Typed
 /-! `a2lmodel`: one request per line on stdin, one canonical answer per line on stdout. -/
 open A2l
 
@@ -16,6 +17,8 @@ def dispatch (line : String) : String :=
   match (line.trimAscii.toString.splitOn " ").filter (· ≠ "") with
   | "il" :: args => IL.handle args
   | "aml" :: args => Aml.handle args
+  | "typ" :: args => Typed.handle args
+  | "amlrt" :: args => Typed.handleRt args
   | "cln" :: args => Cl.handle args
   | "inc" :: args => Inc.handle args
   | "mrg" :: args => Mg.handle args
